@@ -14,6 +14,7 @@ import (
 	"mellium.im/xmpp"
 	"mellium.im/xmpp/jid"
 	"mellium.im/xmpp/stanza"
+	"mellium.im/xmpp/verifharness/core"
 
 	"mellium.im/xmpp/verifharness/xmltree"
 )
@@ -111,6 +112,7 @@ type gen struct {
 	s2s      bool
 	s        *xmpp.Session
 	reuse    *reuseState
+	c        *core.Case
 }
 
 var kinds = []string{"message", "presence", "iq"}
@@ -181,6 +183,13 @@ func (g *gen) stanzaTop(kind, typ, marker string, forceID string) *elem {
 		// namespace: a token stream that declares a default namespace at the
 		// top but leaves such descendants unqualified has no single reading.
 		e.Attrs = append(e.Attrs, attr("xmlns", e.Name.Space))
+	} else if e.Name.Space == "" && r.Intn(4) == 0 && !emptyUnderForeign(e, g.streamNS) {
+		// the form (*xml.Decoder).RawToken relays: the name unresolved, the
+		// declaration of the stream's content namespace an ordinary attribute
+		e.Attrs = append(e.Attrs, attr("xmlns", g.streamNS))
+		if g.c != nil {
+			g.c.Count("stanzas_in_raw_token_form_unresolved_name_plus_xmlns_attribute", 1)
+		}
 	}
 	return e
 }
